@@ -37,8 +37,9 @@ def generate(rng, tier):
         cases.append(c)
     cores = stream_cfgs_for(lambda k: True)
     for i in range(n // 2):
-        bs, w, dm, kind = cores[i % len(cores)]
-        key, iv = rbytes_n(rng, 8), boundary_iv(rng, bs, kind)
+        bs, w, dm, kind = pick_stream(rng, i)
+        key = rbytes_n(rng, 8)
+        iv = stream_iv(rng, bs, kind, key, dm)
         c = Case("c07_s%d" % i, "stream", bs, w, dm, tags=dict(mode=kind + "_core"))
         c.op("new a %s_core new %s %s" % (kind, hx(key), hx(iv)))
         c.op("new b %s_core new %s %s" % (kind, hx(key), hx(iv)))
